@@ -252,11 +252,15 @@ def run(ctx):
         kinds_ = assigned_kinds(f)
         newb = kinds_.get("StructuredNew", [])
         sets = []
-        for l in range(len(f.locals)):
-            if f.local_name(l) in ("insertion_prefix", "insertion_suffix"):
-                for (bb, kind, d) in f.defs.get(l, []):
-                    if kind == "assign" and not (d["rv"]["k"] == "agg" and d["rv"].get("variant") == "None"):
-                        sets.append(bb)
+        from .finder import entry_args
+        from ..common import value_sites
+        ea = entry_args(facts, f) or {}
+        for nm in ("insertion_prefix", "insertion_suffix"):
+            if nm in ea:
+                for (bb, d) in value_sites(f, ea[nm]):
+                    if isinstance(d, dict) and d["rv"]["k"] == "agg" and d["rv"].get("variant") == "None":
+                        continue
+                    sets.append(bb)
         dom = cfg.dominators(f)
         isn = [c for c in f.calls_to(r"Option::<.*>::is_none$") if "CodePosition" in c.full]
         ok = bool(newb) and bool(sets)
